@@ -421,6 +421,8 @@ func driveC08(toks []string) string {
 		return driveC08Ev(toks)
 	case "agg":
 		return driveC08Agg(toks)
+	case "qry":
+		return driveC08Qry(toks)
 	}
 	return "bad-op"
 }
